@@ -51,11 +51,11 @@ theorem pattern_step {s : Src} (hs : AsciiThenBoundary s) {n : Nat} (IH : Specs 
     (hb : Bnd s p) (hf : 4 * (s.size - p) + 2 ≤ n + 1) :
     Good s p (getPattern s (n + 1) p) (fun o q => Bnd s q ∧ ∀ els, o = some els → VP s els) := by
   have key : ∀ role p2, After s p p2 →
-      Good s p (match getPatternLoop s n ⟨[], none, none, role⟩ p2 with
+      Good s p (match getPatternLoop s n ⟨[], none, none, role, none⟩ p2 with
         | .ok st q =>
           (match st.lastNonBlank with
            | some lnb =>
-             (match finishElements s st.commonIndent lnb 0 st.elements with
+             (match finishElements s st.keptCommonIndent lnb 0 st.elements with
               | some els => .ok (some els) q
               | none => .panic "get_pattern slice")
            | none => .ok none q)
@@ -65,11 +65,11 @@ theorem pattern_step {s : Src} (hs : AsciiThenBoundary s) {n : Nat} (IH : Specs 
     intro role p2 hA
     have h1 := hA.le
     have h2 := hA.le_size hp
-    rcases (IH.patternLoop ⟨[], none, none, role⟩ p2 h2 (hA.bnd hs hb) (by simp) (by omega)).cases with
+    rcases (IH.patternLoop ⟨[], none, none, role, none⟩ p2 h2 (hA.bnd hs hb) (by simp) (by omega)).cases with
       ⟨st, q, hr, h3, h4, h5, h6⟩ | ⟨e, q, hr, h3, h4⟩ <;> simp only [hr]
     · split
       · rename_i lnb _
-        obtain ⟨r, hr', hv⟩ := finishElements_ok hs st.commonIndent lnb 0 st.elements h6
+        obtain ⟨r, hr', hv⟩ := finishElements_ok hs st.keptCommonIndent lnb 0 st.elements h6
         simp only [hr']
         refine (good_ok _ _ _ _ _).mpr ⟨by omega, h4, h5, ?_⟩
         intro els he; simp at he; subst he; exact hv
@@ -435,6 +435,7 @@ def st2Of (s : Src) (st : PatState) (p indent start stop : Nat) (nb : Bool) (ter
       | some e, some sv =>
         some { st with commonIndent := ci,
                        lastNonBlank := if sv then some st.elements.length else st.lastNonBlank,
+                       keptCommonIndent := if sv then ci else st.keptCommonIndent,
                        elements := st.elements ++ [e] }
       | _, _ => none
     else some { st with commonIndent := ci }
